@@ -23,13 +23,15 @@ from harness.core import Check, tier_seed, assert_repo, main_guard, jsonable
 from harness.tlc import run_tlc
 
 TOL = 1e-9
-CFG = {"quick": ["MC_Measures_quick.cfg"], "thorough": ["MC_Measures_thorough.cfg", "MC_Measures_deep.cfg"]}
+# (cfg, only shapes with <= this many factors): quick = one edit from 258 loaded measures of all 39 shapes + two edits on
+# the shapes with <= 2 factors; thorough = one edit from 1194 loaded measures + two edits on all shapes
+CFG = {"quick": [("MC_Measures_quick.cfg", 3), ("MC_Measures_deep.cfg", 2)],
+       "thorough": [("MC_Measures_thorough.cfg", 3), ("MC_Measures_deep.cfg", 3)]}
 
 D = None      # mystic.math.discrete
 M = None      # mystic.math.measures
 C = None      # mystic.constraints
 _CAT = {}
-_DATA = None  # selftest: parsed TLC output shared with forked workers
 
 
 def load_mystic():
@@ -432,9 +434,9 @@ def replay_printed(printed, corrupt=None):
 
 
 def tlc_part(job):
-    cfg, part, npart = job
+    cfg, part, npart, maxf = job
     r = run_tlc("math/MC_Measures", cfg=cfg, workers=1, timeout=3000, heap="3g",
-                env={"C19_PART": part, "C19_NPART": npart})
+                env={"C19_PART": part, "C19_NPART": npart, "C19_MAXF": maxf})
     return r
 
 
@@ -451,16 +453,12 @@ def work(job):
     return job, mc, res
 
 
-def work_cached(i):
-    job, mc, printed, corrupt = _DATA[i]
-    return job, mc, replay_printed(printed, corrupt)
-
-
 def jobs_for(a):
     npart = max(1, min(a.jobs, 16))
     if a.tier == "quick":
         npart = max(1, min(a.jobs, 8))
-    return [(cfg, p, npart) for cfg in CFG[a.tier] for p in range(npart)], npart
+    return [(cfg, p, npart if maxf == 3 else max(1, npart // 2), maxf) for cfg, maxf in CFG[a.tier]
+            for p in range(npart if maxf == 3 else max(1, npart // 2))], npart
 
 
 def new_check(a):
@@ -480,7 +478,8 @@ def collect(ck, results):
     ck.extra["replay_wall_s_sum"] = round(sum(mc.get("replay_s", 0) for _, mc, _ in results), 1)
     ck.extra["slowest_partition_s"] = round(max((mc.get("replay_s", 0) + (mc.get("wall_s") or 0)) for _, mc, _ in results), 1)
     for job, mc, res in results:
-        name = "Measures[%s part %d/%d]" % (job[0].replace("MC_Measures_", "").replace(".cfg", ""), job[1], job[2])
+        name = "Measures[%s, shapes with <= %d factors part %d/%d]" % (
+            job[0].replace("MC_Measures_", "").replace(".cfg", ""), job[3], job[1], job[2])
         if mc["violated"]:
             ck.violation("spec:" + mc["violated"], {"tlc": mc["tail"], "model": name},
                          "TLC: design property %s violated in %s" % (mc["violated"], name))
@@ -546,22 +545,9 @@ def explore(ck, a):
 
 
 # ------------------------------------------------------------------------------ self test
-def selftest(a):
+def mutant_catalogue():
+    """in-memory mutations of mystic (this process only) + falsified TLC values: (name, apply, corrupt), restore"""
     import numpy
-    global _DATA
-    a.tier = "quick"
-    jobs, npart = jobs_for(a)
-    ctx = mp.get_context("fork")
-    with ctx.Pool(min(len(jobs), max(1, a.jobs))) as pool:
-        runs = pool.map(tlc_part, jobs, chunksize=1)
-    base = []
-    for job, r in zip(jobs, runs):
-        if r.violated:
-            print("SELFTEST aborted: TLC reports %s" % r.violated)
-            return 2
-        mc = {"distinct": r.distinct, "generated": r.generated, "depth": r.depth, "wall_s": r.wall_s, "violated": None, "tail": ""}
-        base.append([job, mc, r.printed, None])
-
     PM, SC, ME = D.product_measure, D.scenario, D.measure
     saved = {"_pack": M._pack, "_unpack": M._unpack, "flatten": D.flatten, "unflatten": D.unflatten,
              "decompose": D.decompose, "expectation": M.expectation, "support": M.support,
@@ -703,44 +689,62 @@ def selftest(a):
                ("range setter also renormalises the weights", m_range_setter_touches_weights, None),
                ("one expected observable from TLC falsified", None, corrupt_expected),
                ("one expected successor from TLC falsified", None, corrupt_successor)]
-    missed = 0
-    import io, contextlib, shutil
-    from harness.tlc import scratch_dir
-    scratch = scratch_dir()
-    for name, mut, corrupt in mutants:
-        _DATA = [[job, mc, printed, (corrupt if i == 0 else None)] for i, (job, mc, printed, _) in enumerate(base)]
+    return mutants, restore
+
+
+def selftest_part(job):
+    """one partition: TLC once, then the replay under every mutant (applied and undone in this process)"""
+    r = tlc_part(job)
+    if r.violated:
+        return job, r.violated, None
+    printed = r.printed
+    r.clear()
+    mutants, restore = mutant_catalogue()
+    out = []
+    for name, mut, corrupt in mutants + [("unmutated tree", None, None)]:
+        data = printed
+        if corrupt is not None:
+            if job[1] != 0:
+                out.append(None)
+                continue
+            data = json.loads(json.dumps(printed))
         if mut:
             mut()
-        ck = new_check(a)
-        ck.dry, ck.outdir = True, scratch            # a self-test leaves no evidence and no artefacts
         try:
-            with ctx.Pool(min(len(_DATA), max(1, a.jobs))) as pool:       # forked after the mutation: workers inherit it
-                results = pool.map(work_cached, range(len(_DATA)), chunksize=1)
-            buf = io.StringIO()
-            with contextlib.redirect_stdout(buf):
-                collect(ck, results)
-        except Exception as ex:
-            print("  mutant made the harness fail: %r" % ex)
-            ck.violations += 1
+            res = replay_printed(data, corrupt)
+            out.append({k: [v[0]] for k, v in res["viol"].items()})
+        except Exception as ex:                       # a mutant that breaks the harness' own calls is caught as well
+            out.append({"harness-failure:%s" % type(ex).__name__: [1]})
         finally:
             restore()
-        keys = sorted(ck.viol_keys, key=lambda k: -ck.viol_keys[k])[:4]
-        print("SELFTEST %s: %s (%d violations; %s)" % (name, "caught" if ck.violations else "MISSED", ck.violations, ", ".join(keys)))
-        sys.stdout.flush()
-        missed += 0 if ck.violations else 1
-    # the unmutated tree must be quiet on the same data (otherwise "caught" means nothing)
-    _DATA = [[job, mc, printed, None] for (job, mc, printed, _) in base]
-    with ctx.Pool(min(len(_DATA), max(1, a.jobs))) as pool:
-        results = pool.map(work_cached, range(len(_DATA)), chunksize=1)
-    ck = new_check(a)
-    ck.dry, ck.outdir = True, scratch
-    buf = io.StringIO()
-    with contextlib.redirect_stdout(buf):
-        collect(ck, results)
-    shutil.rmtree(scratch, ignore_errors=True)
-    print("SELFTEST unmutated tree: %d violations" % ck.violations)
-    if ck.violations:
-        print("  (violations on the unmutated tree: %s)" % ", ".join(sorted(ck.viol_keys)))
+    return job, None, out
+
+
+def selftest(a):
+    a.tier = "quick"
+    jobs, npart = jobs_for(a)
+    jobs = [j for j in jobs if j[0] == CFG["quick"][0][0]]     # the one-edit graph over all 39 shapes is enough here
+    ctx = mp.get_context("fork")
+    with ctx.Pool(min(len(jobs), max(1, a.jobs))) as pool:
+        parts = pool.map(selftest_part, jobs, chunksize=1)
+    for job, violated, out in parts:
+        if violated:
+            print("SELFTEST aborted: TLC reports %s" % violated)
+            return 2
+    names = [m[0] for m in mutant_catalogue()[0]] + ["unmutated tree"]
+    missed = 0
+    for idx, name in enumerate(names):
+        total = {}
+        for job, _, out in parts:
+            for k, v in (out[idx] or {}).items():
+                total[k] = total.get(k, 0) + v[0]
+        n = sum(total.values())
+        keys = ", ".join(sorted(total, key=lambda k: -total[k])[:4])
+        if name == "unmutated tree":
+            print("SELFTEST unmutated tree: %d violations %s" % (n, keys))
+            continue
+        print("SELFTEST %s: %s (%d violations; %s)" % (name, "caught" if n else "MISSED", n, keys))
+        missed += 0 if n else 1
     return 1 if missed else 0
 
 
@@ -763,7 +767,7 @@ def replay_artifact(a):
                                                                 " action %s" % act if act else ""))
     part = shape_rank(st["shape"] if st["shape"] else act["sh"])
     rp, done = None, 0
-    for cfg in CFG["quick"] + CFG["thorough"]:
+    for cfg in ("MC_Measures_quick.cfg", "MC_Measures_thorough.cfg", "MC_Measures_deep.cfg"):
         r = run_tlc("math/MC_Measures", cfg=cfg, workers=1, timeout=3000, heap="3g", env={"C19_PART": part, "C19_NPART": 39})
         global _DATA_INDEX
         set_catalogue(r.printed[0])
